@@ -14,6 +14,11 @@ def cases(tier):
         for k in ((1, 4) if tier == 'quick' else (1, 2, 3, 4)):
             L.append(fsm_case('C16', fx, 'imm%d' % k, base + ['ENTRY=2', 'KIND=%d' % k], timeout=900 * T, witness=False))
         L.append(fsm_case('C16', fx, 'detached_imm1', base + ['ENTRY=2', 'KIND=1', 'LOGGER_DETACHED'], timeout=900 * T, witness=False))
+    if tier == 'quick':
+        # an orthogonal region: several guards of one pass may cancel (each cancellation must be reported)
+        o = dict(sublimit=2, features=['LOG_INTERFACE'], callbacks=['guard', 'life', 'select'], act=['guard'], kinds=0x9e)
+        fx = fixture('C16', 'foroot', o, tag='g')
+        L.append(fsm_case('C16', fx, 'imm1', ['P_C16', 'CB_KINDS=0x9e', 'CB_BUDGET=1', 'ENTRY=2', 'KIND=1'], timeout=900, witness=False))
     if tier == 'thorough':
         o = dict(sublimit=2, features=['VERBOSE_DEBUG_LOG'], callbacks=['guard', 'life', 'update1', 'select'], act=['guard', 'update'], kinds=0x9e)
         fx = fixture('C16', 'f5', o, tag='verbose')
